@@ -38,11 +38,15 @@ def recipes():
   act = {"num_bits": 8, "symmetric": False, "granularity": "TENSORWISE", "dtype": "INT", "block_size": 0}
   w = {"num_bits": 8, "symmetric": True, "granularity": "CHANNELWISE", "dtype": "INT", "block_size": 0}
   srq = {"activation_tensor_config": act, "weight_tensor_config": w, "compute_precision": "INTEGER", "explicit_dequantize": False, "skip_checks": False}
+  act16 = dict(act, num_bits=16, symmetric=True)
+  srq16 = dict(srq, activation_tensor_config=act16)
   drq = {"weight_tensor_config": w, "compute_precision": "INTEGER", "explicit_dequantize": False, "skip_checks": False}
   rule = lambda rx, op, cfg: {"regex": rx, "operation": op, "algorithm_key": "min_max_uniform_quantize", "op_config": copy.deepcopy(cfg)}
   return {
       "RA": [rule(".*", "*", srq)],                                             # everything static: TANH and RESHAPE write statistics
-      "RB": [rule(".*", "FULLY_CONNECTED", srq), rule(".*", "ADD", srq)],        # static, but no same-scale / fixed-range operator
+      # static, but no same-scale / fixed-range operator; the model input feeds the 8-bit FULLY_CONNECTED and the 16-bit ADD, so two
+      # QUANTIZE ops are inserted on one float tensor and the second new tensor's name clashes with the first (..._quantized_1)
+      "RB": [rule(".*", "FULLY_CONNECTED", srq), rule(".*", "ADD", srq16)],
       # dynamic range: no calibration; plus a no_quantize rule written the short way, without an 'op_config' key (legal for no_quantize)
       "RC": [rule(".*", "FULLY_CONNECTED", drq), {"regex": ".*", "operation": "ADD", "algorithm_key": "no_quantize"}],
   }
